@@ -4,7 +4,7 @@ $in_newline is handed to `/bin/sh -c` exactly as subprocess-posix.cc does; an ar
 what the shell made of it.  Part 2 (response files) is observed by the nsim trace monitor:
 rspfile bytes at START, removed after success, kept after failure."""
 
-MANIFEST = {'engine': 'nprobe+e2e', 'category': 'exploration', 'technique': 'runtime monitoring: real Edge::EvaluateCommand text executed by /bin/sh -c with an argv-dumping command; exhaustive 1-2 byte names', 'text': 'All 64,770 names of one and two bytes (every byte but NUL/newline), 3-byte names over a 26-symbol shell-special alphabet and random long names are placed in $in/$out lists of an edge built directly in a State; the evaluated command is run by /bin/sh exactly as ninja does and the argv the shell produced is compared word by word. Safe names must appear verbatim. Response files: real-binary scenarios in which a longer file already sits at the rspfile path (stale, kept after a failed command, kept by -d keeprsp): the command must read exactly the evaluated content (its output is a hash of it), the file is removed after success and kept verbatim after failure; the same is monitored on the virtual disk in the nsim traces of C04/C05.', 'note': "Trusted: /bin/sh is the shell ninja spawns; argvdump. $in_newline is tested with one name (newline is the shell's command separator).", 'ref': 'DESIGN.md §5 C16'}
+MANIFEST = {'engine': 'nprobe+e2e', 'category': 'exploration', 'technique': 'runtime monitoring: real Edge::EvaluateCommand text executed by /bin/sh -c with an argv-dumping command; exhaustive 1-2 byte names', 'text': 'All 64,770 names of one and two bytes (every byte but NUL/newline), 3-byte names over a 26-symbol shell-special alphabet, otherwise safe names of 2..13 bytes with one special byte at each position in turn, and random long names are placed in $in/$out lists of an edge built directly in a State; the evaluated command is run by /bin/sh exactly as ninja does and the argv the shell produced is compared word by word. Safe names must appear verbatim. Response files: real-binary scenarios in which a longer file already sits at the rspfile path (stale, kept after a failed command, kept by -d keeprsp): the command must read exactly the evaluated content (its output is a hash of it), the file is removed after success and kept verbatim after failure; the same is monitored on the virtual disk in the nsim traces of C04/C05.', 'note': "Trusted: /bin/sh is the shell ninja spawns; argvdump. $in_newline is tested with one name (newline is the shell's command separator).", 'ref': 'DESIGN.md §5 C16'}
 
 import itertools, os, random, re, subprocess
 from concurrent.futures import ThreadPoolExecutor
@@ -54,6 +54,16 @@ def run(ctx):
         L = rng.choice((1, 2, 4, 9, 30, 120, 1000))
         pool = rng.choice((bytes(allb_i[0] for allb_i in allb), b"ab/._-+", b" '\"\\$`*?~;|&<>(){}[]!#\t\rab"))
         randn.append(bytes(rng.choice(pool) for _ in range(L)))
+    # sparse specials: otherwise safe names of 2..13 bytes with one shell-special byte at each position in turn (a scan
+    # for "needs quoting" that looks at most positions but not all is only exposed by the one position it skips)
+    sparse = []
+    sp_chars = b" *;&'$`|" if ctx.tier == "quick" else b" \t'\"\\$`*?[]~#&|;<>(){}!="
+    for L in range(2, 14):
+        base = (b"abcdefghijklmnop")[:L]
+        for pos in range(L):
+            for ch in sp_chars:
+                sparse.append(base[:pos] + bytes([ch]) + base[pos + 1:])
+    randn += sparse
     groups = []   # (mode, nin, [names])
     rotations = (0, 5, 11) if ctx.tier == "thorough" else (0, 7)
 
